@@ -282,7 +282,15 @@ function runEval(c) {
       // the all-templates bundle: evaluates to G (path -> generator object); cross-file links (import, include, external
       // scripts) are live inside it
       // eslint-disable-next-line no-new-func
-      const G = new Function('return ' + c.code)()
+      let G
+      if (c.gwx) {
+        // the wx flavour registers every template through __wxCodeSpace__.addCompiledTemplate(path, {groupList, content})
+        G = {}
+        const space = { addCompiledTemplate: (path, o) => { G[path] = o.content } }
+        new Function('__wxCodeSpace__', c.code)(space)
+      } else {
+        G = new Function('return ' + c.code)()
+      }
       gen = G[c.gpath]
       if (typeof gen !== 'function') { res.parseError = 'the bundle has no entry ' + JSON.stringify(c.gpath); return res }
     } else {
